@@ -56,7 +56,9 @@ def natLit (s : List Char) : Option Nat :=
   | [] => none
 
 /-- the blanks `int()` skips around the number: `str.isspace` without U+001C..U+001F -/
-def isIntSpace (c : Char) : Bool := isSpace c && !(28 ≤ c.toNat && c.toNat ≤ 31)
+def isIntSpace (c : Char) : Bool :=
+  let n := c.toNat
+  (9 ≤ n && n ≤ 13) || n == 32 || (127 ≤ n && isSpace c)
 
 def stripInt (s : List Char) : List Char :=
   ((s.dropWhile isIntSpace).reverse.dropWhile isIntSpace).reverse
